@@ -7,6 +7,8 @@ CONSTANTS
   Mutex = TRUE
   ErrsCloser = "dispatcher"
   MainReadsErrs = TRUE
+  GenVariants = {1}
+  SlotRelease = "deferred"
   SkipRule = "coded"
   TwoRuns = FALSE
   EmitCases = FALSE
